@@ -534,3 +534,11 @@ func sortedKeys[M ~map[string]V, V any](m M) []string {
 	sort.Strings(ks)
 	return ks
 }
+
+type jsonRaw = json.RawMessage
+
+func mustJSON(b []byte, v any) {
+	if err := json.Unmarshal(b, v); err != nil {
+		panic("bad json: " + err.Error())
+	}
+}
